@@ -3,7 +3,7 @@
    lifecycle guard and monotonicity (C13); event log (C18). *)
 From Coq Require Import String.
 From Coq Require Import List Bool Arith Lia.
-From Asphalt Require Import Ctx.ResModel.
+From Asphalt Require Import Ctx.ResModel Gen.Gen_lookup.
 Import ListNotations.
 Open Scope string_scope.
 Open Scope list_scope.
@@ -113,7 +113,15 @@ Local Arguments forallb : simpl never.
 Local Arguments eff_types : simpl never.
 
 (* case analysis on everything [local_step] inspects *)
+(* the asynchronous lookup stores its product the way the synchronous one does (both read from the source,
+   Gen/Gen_lookup.v; equal on this run) *)
+Lemma sga_eq : store_generated_async = store_generated.
+Proof. reflexivity. Qed.
+Ltac unfold_sg :=
+  unfold store_generated, store_generated_as, nw_free_types_only, nw_marked_generated, nw_dispatch_iff_stored.
+
 Ltac crush_step :=
+  rewrite ?sga_eq in *;
   unfold not_found in *;
   repeat match goal with
   | |- context [match ?e with _ => _ end] => destruct e eqn:?; simpl in *
@@ -121,9 +129,9 @@ Ltac crush_step :=
   end.
 
 Lemma life_store_generated x f v : life (store_generated x f v) = life x.
-Proof. unfold store_generated. destruct (free_types x f); reflexivity. Qed.
+Proof. unfold_sg. destruct (free_types x f); reflexivity. Qed.
 Lemma facs_store_generated x f v : facs (store_generated x f v) = facs x.
-Proof. unfold store_generated. destruct (free_types x f); reflexivity. Qed.
+Proof. unfold_sg. destruct (free_types x f); reflexivity. Qed.
 
 (* ---------------- C13: lifecycle ---------------- *)
 Definition rank (l : lstate) : nat :=
@@ -185,7 +193,7 @@ Qed.
 Lemma store_generated_stable x f v k c :
   find k (res x) = Some c -> find k (res (store_generated x f v)) = Some c.
 Proof.
-  intro H. unfold store_generated.
+  intro H. unfold_sg.
   destruct (free_types x f) as [|t0 tr] eqn:Ef; auto. cbn [res set_evlog set_res]. rewrite <- Ef.
   apply find_ins_all_stable; auto.
   intros t1 Ht. unfold free_types in Ht. apply filter_In in Ht. destruct Ht as [_ Ht].
@@ -439,7 +447,7 @@ Lemma evlog_store_generated x f v :
   evlog (store_generated x f v) =
   evlog x ++ match free_types x f with [] => [] | ts => [REv ts (fname f) (fdesc f) false] end.
 Proof.
-  unfold store_generated. destruct (free_types x f); simpl; auto. now rewrite app_nil_r.
+  unfold_sg. destruct (free_types x f); simpl; auto. now rewrite app_nil_r.
 Qed.
 
 (* any operation appends at most one event, and never rewrites the past *)
@@ -451,3 +459,13 @@ Proof.
   { intros y f v Hy. rewrite evlog_store_generated, Hy. eexists; split; eauto. destruct (free_types y f); simpl; lia. }
   unfold local_step. destruct a; simpl; crush_step; auto; eexists; split; eauto.
 Qed.
+
+(* ---------- the shape of the lookups and of Context.__init__ the model was computed from ---------- *)
+Theorem lookup_source_shape :
+  lk_existing_resource_first = true /\ nw_async_rejected_before_storing = true /\
+  nw_free_types_only = true /\ nw_marked_generated = true /\ nw_dispatch_iff_stored = true /\
+  as_inflight_guard = true /\ as_free_types_only = true /\ as_marked_generated = true /\
+  as_dispatch_iff_stored = true /\ as_returns_what_the_pair_resolves_to = true.
+Proof. repeat split. Qed.
+Theorem init_source_shape : init_skips_generated = true /\ init_copies_factories = true.
+Proof. split; reflexivity. Qed.
